@@ -22,6 +22,7 @@ use rand::seq::SliceRandom;
 use rand::Rng;
 use serde::Serialize;
 use serde_json::{json, Value};
+use smartcore::api::{Predictor, SupervisedEstimator};
 use smartcore::linalg::naive::dense_matrix::DenseMatrix;
 use smartcore::svm::svc::{SVCParameters, SVC};
 use smartcore::svm::svr::{SVRParameters, SVR};
@@ -133,6 +134,53 @@ struct Fitted {
     kq: Vec<Vec<f64>>, // Kernel::apply(pts[j], inst[i]) for the logged kernels
     left: usize,
     err: Option<String>,
+    // batch events: one call on all B query rows (fb / pb) against the same rows in blocks (fc / pc)
+    fb: Vec<f64>,
+    fc: Vec<f64>,
+    pb: Vec<f64>,
+}
+
+impl Fitted {
+    fn failed(left: usize, e: String) -> Fitted {
+        Fitted { inst: vec![], w: vec![], b: 0.0, f: vec![], pred: vec![], kq: vec![], left, err: Some(e),
+                 fb: vec![], fc: vec![], pb: vec![] }
+    }
+}
+
+/// the optional batch part of an input: all query rows, the block length of the reference
+/// evaluation, and the (0-based) positions whose values feed the expansion clause as `Q`
+struct Batch {
+    rows: Vec<Vec<f64>>,
+    block: usize,
+    sample: Vec<usize>,
+}
+
+fn batch_of(inp: &Value) -> Option<Batch> {
+    let b = inp.get("batch")?;
+    Some(Batch {
+        rows: rows_of(&b["rows"]),
+        block: b["block"].as_u64().unwrap() as usize,
+        sample: b["sample"].as_array().unwrap().iter().map(|v| v.as_u64().unwrap() as usize).collect(),
+    })
+}
+
+fn batch_out(f: &Fitted, with_pred: bool) -> Value {
+    // fixed point at the largest scale 2^bs (bs <= 30) for which every value stays below 2^30:
+    // a relative resolution of 2^-30 of the largest decision value -- a magnitude choice only
+    let finite = f.fb.iter().chain(f.fc.iter()).all(|v| v.is_finite());
+    let m = f.fb.iter().chain(f.fc.iter()).fold(1.0f64, |m, v| if v.is_finite() { m.max(v.abs()) } else { m });
+    let bs = (30 - (m.log2().ceil() as i64)).max(0).min(30) as u32;
+    let q = Q::with_limit(bs, 1.5e9);
+    let fbq = q.v(&f.fb);
+    let fcq = q.v(&f.fc);
+    let fsb: Vec<i64> = f.fb.iter().map(|&v| sign(v)).collect();
+    let mut o = json!({"bs": bs, "fbq": fbq, "fcq": fcq, "fsb": fsb, "bok": finite && q.ok()});
+    if with_pred {
+        let ok = intv(&f.pb).is_some();
+        o["pb"] = json!(f.pb.iter().map(|&x| int_exact(x).unwrap_or(0)).collect::<Vec<i64>>());
+        o["pint"] = json!(ok);
+    }
+    o
 }
 
 fn dump_model(v: &Value) -> (Vec<Vec<f64>>, Vec<f64>, f64) {
@@ -245,6 +293,9 @@ fn svc_event(run: i64, src: &str, inp: Value) -> Value {
     let c = inp["Cn"].as_i64().unwrap() as f64 / inp["Cd"].as_i64().unwrap() as f64;
     let epochs = inp["epochs"].as_u64().unwrap() as usize;
     let tol = pow2(-inp["tolE"].as_i64().unwrap());
+    let api = inp["api"].as_bool().unwrap_or(false);
+    let batch = batch_of(&inp);
+    let is_batch = batch.is_some();
     let sched: Vec<Vec<usize>> = inp["sched"]
         .as_array()
         .unwrap()
@@ -257,6 +308,8 @@ fn svc_event(run: i64, src: &str, inp: Value) -> Value {
     let n = x.len();
     let ptsc = pts.clone();
     let kdc = kd.clone();
+    type Model = SVC<f64, DenseMatrix<f64>, AnyK>;
+    type Params = SVCParameters<f64, DenseMatrix<f64>, AnyK>;
     let r = watchdog(watchdog_secs(), move || {
         let xm = matrix(&x);
         let pm = matrix(&ptsc);
@@ -270,22 +323,60 @@ fn svc_event(run: i64, src: &str, inp: Value) -> Value {
             .with_c(c)
             .with_tol(tol)
             .with_kernel(kernel.clone());
-        let fitted = SVC::fit(&xm, &y, params);
+        // both public entry points: the inherent methods and the api traits
+        let fitted = if api {
+            <Model as SupervisedEstimator<DenseMatrix<f64>, Vec<f64>, Params>>::fit(&xm, &y, params)
+        } else {
+            SVC::fit(&xm, &y, params)
+        };
         let left = schedule_left();
         clear_schedule();
         match fitted {
-            Err(e) => Fitted { inst: vec![], w: vec![], b: 0.0, f: vec![], pred: vec![], kq: vec![], left,
-                               err: Some(format!("{}", e)) },
+            Err(e) => Fitted::failed(left, format!("{}", e)),
             Ok(m) => {
+                let predict = |mm: &DenseMatrix<f64>| -> Vec<f64> {
+                    if api {
+                        <Model as Predictor<DenseMatrix<f64>, Vec<f64>>>::predict(&m, mm).unwrap()
+                    } else {
+                        m.predict(mm).unwrap()
+                    }
+                };
                 let (inst, w, b) = dump_model(&serde_json::to_value(&m).unwrap());
-                let f = m.decision_function(&pm).unwrap();
-                let pred = m.predict(&pm).unwrap();
+                let (f, pred);
+                let (mut fb, mut fc, mut pb) = (vec![], vec![], vec![]);
+                match &batch {
+                    None => {
+                        f = m.decision_function(&pm).unwrap();
+                        pred = predict(&pm);
+                    }
+                    Some(bt) => {
+                        // ONE call on all rows ...
+                        let big = matrix(&bt.rows);
+                        fb = m.decision_function(&big).unwrap();
+                        pb = predict(&big);
+                        // ... against the same rows in blocks
+                        for chunk in bt.rows.chunks(bt.block) {
+                            let cm = matrix(chunk);
+                            fc.extend(m.decision_function(&cm).unwrap());
+                        }
+                        // pts = X ++ Q with Q = the sampled batch rows: values of the training rows from
+                        // a call on X, values of Q taken out of the big call
+                        let mut f0 = m.decision_function(&xm).unwrap();
+                        let mut p0 = predict(&xm);
+                        for &sidx in &bt.sample {
+                            f0.push(fb[sidx]);
+                            p0.push(pb[sidx]);
+                        }
+                        f = f0;
+                        pred = p0;
+                    }
+                }
                 let kq = if logged_kernel(&kdc) {
                     inst.iter().map(|sv| ptsc.iter().map(|p| kernel.apply(p, sv)).collect()).collect()
                 } else {
                     vec![]
                 };
-                Fitted { inst, w, b, f, pred, kq, left, err: None }
+                Fitted { inst, w, b, f, pred, kq, left, err: None, fb, fc, pb }
             }
         }
     });
@@ -297,10 +388,14 @@ fn svc_event(run: i64, src: &str, inp: Value) -> Value {
             let mut o = project(&f, true, n);
             let pk = prod_ok(&o, &kd, &pts);
             o["prodok"] = json!(pk);
+            if is_batch {
+                o["batch"] = batch_out(&f, true);
+            }
             ("ok", o)
         }
     };
-    json!({"run": run, "ev": "SvcFit", "src": src, "status": status, "in": inp, "out": out})
+    json!({"run": run, "ev": if is_batch { "SvcBatch" } else { "SvcFit" }, "src": src, "status": status,
+           "in": inp, "out": out})
 }
 
 // ------------------------------------------------------------------------------------------
@@ -313,12 +408,17 @@ fn svr_event(run: i64, src: &str, inp: Value) -> Value {
     let c = inp["Cn"].as_i64().unwrap() as f64 / inp["Cd"].as_i64().unwrap() as f64;
     let eps = inp["eps16"].as_i64().unwrap() as f64 / 65536.0;
     let tol = inp["tol16"].as_i64().unwrap() as f64 / 65536.0;
+    let api = inp["api"].as_bool().unwrap_or(false);
+    let batch = batch_of(&inp);
+    let is_batch = batch.is_some();
     let kd = inp["kernel"].clone();
     let mut pts = x.clone();
     pts.extend(q.iter().cloned());
     let n = x.len();
     let ptsc = pts.clone();
     let kdc = kd.clone();
+    type Model = SVR<f64, DenseMatrix<f64>, AnyK>;
+    type Params = SVRParameters<f64, DenseMatrix<f64>, AnyK>;
     let r = watchdog(watchdog_secs(), move || {
         let xm = matrix(&x);
         let pm = matrix(&ptsc);
@@ -328,18 +428,43 @@ fn svr_event(run: i64, src: &str, inp: Value) -> Value {
             .with_c(c)
             .with_tol(tol)
             .with_kernel(kernel.clone());
-        match SVR::fit(&xm, &y, params) {
-            Err(e) => Fitted { inst: vec![], w: vec![], b: 0.0, f: vec![], pred: vec![], kq: vec![], left: 0,
-                               err: Some(format!("{}", e)) },
+        let fitted = if api {
+            <Model as SupervisedEstimator<DenseMatrix<f64>, Vec<f64>, Params>>::fit(&xm, &y, params)
+        } else {
+            SVR::fit(&xm, &y, params)
+        };
+        match fitted {
+            Err(e) => Fitted::failed(0, format!("{}", e)),
             Ok(m) => {
+                let predict = |mm: &DenseMatrix<f64>| -> Vec<f64> {
+                    if api {
+                        <Model as Predictor<DenseMatrix<f64>, Vec<f64>>>::predict(&m, mm).unwrap()
+                    } else {
+                        m.predict(mm).unwrap()
+                    }
+                };
                 let (inst, w, b) = dump_model(&serde_json::to_value(&m).unwrap());
-                let f = m.predict(&pm).unwrap();
+                let (mut fb, mut fc) = (vec![], vec![]);
+                let f = match &batch {
+                    None => predict(&pm),
+                    Some(bt) => {
+                        fb = predict(&matrix(&bt.rows));
+                        for chunk in bt.rows.chunks(bt.block) {
+                            fc.extend(predict(&matrix(chunk)));
+                        }
+                        let mut f = predict(&xm);
+                        for &sidx in &bt.sample {
+                            f.push(fb[sidx]);
+                        }
+                        f
+                    }
+                };
                 let kq = if logged_kernel(&kdc) {
                     inst.iter().map(|sv| ptsc.iter().map(|p| kernel.apply(p, sv)).collect()).collect()
                 } else {
                     vec![]
                 };
-                Fitted { inst, w, b, f, pred: vec![], kq, left: 0, err: None }
+                Fitted { inst, w, b, f, pred: vec![], kq, left: 0, err: None, fb, fc, pb: vec![] }
             }
         }
     });
@@ -351,12 +476,15 @@ fn svr_event(run: i64, src: &str, inp: Value) -> Value {
             let mut o = project(&f, false, n);
             let pk = prod_ok(&o, &kd, &pts);
             o["prodok"] = json!(pk);
+            if is_batch {
+                o["batch"] = batch_out(&f, false);
+            }
             ("ok", o)
         }
     };
-    json!({"run": run, "ev": "SvrFit", "src": src, "status": status, "in": inp, "out": out})
+    json!({"run": run, "ev": if is_batch { "SvrBatch" } else { "SvrFit" }, "src": src, "status": status,
+           "in": inp, "out": out})
 }
-
 
 // ------------------------------------------------------------------------------------------
 // execution: inputs are prepared sequentially (seeded), fits run on a few OS threads (each fit
@@ -550,7 +678,35 @@ fn svc_input(x: &[Vec<i64>], pos: &[bool], lab: (i64, i64), c: (i64, i64), k: Va
     let (lo, hi) = (l0.min(l1), l0.max(l1));
     let y: Vec<i64> = pos.iter().map(|&b| if b { hi } else { lo }).collect();
     json!({"X": x, "y": y, "Q": q, "Cn": c.0, "Cd": c.1, "C16": c.0 * 65536 / c.1, "kernel": k,
-           "epochs": epochs, "tolE": tol_e, "sched": sched})
+           "epochs": epochs, "tolE": tol_e, "sched": sched, "api": false})
+}
+
+/// batch-length ladder around the block sizes an implementation is likely to use
+const LADDER: [usize; 15] = [63, 64, 65, 127, 128, 129, 255, 256, 257, 511, 512, 513, 1023, 1024, 1025];
+
+/// the `batch` part of an input: B random query rows, reference block length, sampled positions
+/// (block boundaries and a few seeded random ones); returns (batch object, Q = sampled rows)
+fn make_batch(r: &mut StdRng, b: usize, p: usize, nonneg: bool) -> (Value, Vec<Vec<i64>>) {
+    let rows: Vec<Vec<i64>> = (0..b)
+        .map(|_| {
+            let row = rand_row(r, p, 4);
+            if nonneg { row.iter().map(|v| v.abs()).collect() } else { row }
+        })
+        .collect();
+    let mut sample: Vec<usize> = [0usize, 63, 64, 127, 128, 255, 256, 257, 511, 512, 1023, 1024]
+        .iter()
+        .cloned()
+        .filter(|&i| i < b)
+        .collect();
+    sample.push(b - 1);
+    for _ in 0..3 {
+        sample.push(r.gen_range(0..b));
+    }
+    sample.sort();
+    sample.dedup();
+    let q: Vec<Vec<i64>> = sample.iter().map(|&i| rows[i].clone()).collect();
+    let block = *[64usize, 50, 17].choose(r).unwrap();
+    (json!({"rows": rows, "block": block, "sample": sample}), q)
 }
 
 /// the fixed table of four- and five-row training sets combined with every enumerated schedule
@@ -622,7 +778,8 @@ fn gen_replay_spec(spec_file: &str, out: &mut Out) {
                 let p = x[0].len();
                 let q: Vec<Vec<i64>> = vec![vec![0; p], vec![1; p], (0..p as i64).map(|j| j - 1).collect()];
                 run += 1;
-                let inp = svc_input(x, pos, lab, c, k.clone(), epochs, 10, sched.clone(), q);
+                let mut inp = svc_input(x, pos, lab, c, k.clone(), epochs, 10, sched.clone(), q);
+                inp["api"] = json!((li + ki) % 7 == 3);
                 jobs.push(Job { run, src: "sched", svr: false, inp });
             }
         }
@@ -661,8 +818,45 @@ fn gen_svc(out: &mut Out) {
         let q: Vec<Vec<i64>> = (0..nq).map(|_| rand_row(&mut r, p, 4)).collect();
         let q = if root { abs_rows(&q) } else { q };
         run += 1;
-        let inp = svc_input(&x, &pos, lab, c, k, epochs, tol_e, sched, q);
+        let mut inp = svc_input(&x, &pos, lab, c, k, epochs, tol_e, sched, q);
+        inp["api"] = json!(it % 5 == 1);
         jobs.push(Job { run, src: if unseeded { "unseeded" } else { "rand" }, svr: false, inp });
+    }
+    // size ladder, training side: a handful of larger training sets (sizes around 64 / 128 / 256)
+    let sizes: Vec<usize> = if th { vec![63, 65, 96, 128, 129, 200, 255, 257, 300] } else { vec![65, 129, 257] };
+    for (j, &n) in sizes.iter().enumerate() {
+        let p = r.gen_range(2..=4usize);
+        let (x, pos) = rand_svc_data(&mut r, n, p, 1, 3);
+        let k = [kdesc("linear", 1, 1, 1, 0, 1), kdesc("rbf", 1, 1, 8, 0, 1), kdesc("poly", 2, 1, 4, 1, 1)][j % 3].clone();
+        let epochs = 1 + j % 2;
+        let sched: Vec<Vec<usize>> = (0..=epochs).map(|_| rand_perm(&mut r, n)).collect();
+        let q: Vec<Vec<i64>> = (0..3).map(|_| rand_row(&mut r, p, 4)).collect();
+        run += 1;
+        let mut inp = svc_input(&x, &pos, *LABELS.choose(&mut r).unwrap(), (1, 1), k, epochs, 10, sched, q);
+        inp["api"] = json!(j % 2 == 1);
+        jobs.push(Job { run, src: "rand", svr: false, inp });
+    }
+    // size ladder, query side: ONE decision_function / predict call on B rows against the same rows
+    // evaluated in blocks (SvcBatch events)
+    let mut ladder: Vec<usize> = LADDER.to_vec();
+    ladder.push(if th { 5000 } else { 3000 });
+    for (j, &b) in ladder.iter().enumerate() {
+        let n = r.gen_range(6..=14usize);
+        let p = r.gen_range(1..=4usize);
+        let kind = r.gen_range(0..3u32);
+        let (x, pos) = rand_svc_data(&mut r, n, p, kind, 3);
+        let root = j % 8 == 5;
+        let k = if root { rand_root_kernel(&mut r) } else { rand_kernel(&mut r, false) };
+        let x = if root { abs_rows(&x) } else { x };
+        let epochs = r.gen_range(1..=3usize);
+        let sched: Vec<Vec<usize>> = (0..=epochs).map(|_| rand_perm(&mut r, n)).collect();
+        let (batch, q) = make_batch(&mut r, b, p, root);
+        run += 1;
+        let mut inp = svc_input(&x, &pos, *LABELS.choose(&mut r).unwrap(), *CS.choose(&mut r).unwrap(), k, epochs,
+                                10, sched, q);
+        inp["api"] = json!(j % 3 == 1);
+        inp["batch"] = batch;
+        jobs.push(Job { run, src: "rand", svr: false, inp });
     }
     run_jobs(jobs, out);
 }
@@ -762,7 +956,55 @@ fn gen_svr(out: &mut Out) {
         }
         run += 1;
         let inp = json!({"X": x, "y16": y16, "Q": q, "Cn": c.0, "Cd": c.1, "C16": c.0 * 65536 / c.1,
-                         "eps16": eps16, "tol16": tol16, "kernel": k});
+                         "eps16": eps16, "tol16": tol16, "kernel": k, "api": it % 5 == 3});
+        jobs.push(Job { run, src: "rand", svr: true, inp });
+    }
+    // size ladder, training side: a handful of larger regression sets with noisy targets, small
+    // epsilon and a large C, so that most rows become support vectors (kernel-row caches, working-set
+    // bookkeeping and anything else with a size threshold is exercised)
+    let sizes: Vec<usize> = if th { vec![63, 65, 91, 96, 128, 129, 140, 200, 257] } else { vec![65, 96, 129, 140, 200] };
+    for (j, &n) in sizes.iter().enumerate() {
+        let p = r.gen_range(2..=4usize);
+        let x: Vec<Vec<i64>> = (0..n).map(|_| rand_row(&mut r, p, 3)).collect();
+        let wv = rand_row(&mut r, p, 2);
+        let y16: Vec<i64> = x
+            .iter()
+            .map(|row| {
+                let lin: i64 = row.iter().zip(&wv).map(|(a, b)| a * b).sum();
+                (4 * lin + r.gen_range(-8..=8)) * 16384
+            })
+            .collect();
+        let k = [kdesc("rbf", 1, 1, 8, 0, 1), kdesc("linear", 1, 1, 1, 0, 1), kdesc("rbf", 1, 1, 2, 0, 1),
+                 kdesc("poly", 2, 1, 4, 1, 1)][j % 4].clone();
+        let c = [(4i64, 1i64), (16, 1)][j % 2];
+        let eps16 = [0i64, 8192][(j / 2) % 2];
+        let q: Vec<Vec<i64>> = (0..2).map(|_| rand_row(&mut r, p, 4)).collect();
+        run += 1;
+        let inp = json!({"X": x, "y16": y16, "Q": q, "Cn": c.0, "Cd": c.1, "C16": c.0 * 65536 / c.1,
+                         "eps16": eps16, "tol16": 512, "kernel": k, "api": j % 2 == 1});
+        jobs.push(Job { run, src: "rand", svr: true, inp });
+    }
+    // size ladder, query side (SvrBatch events)
+    let ladder: Vec<usize> = if th { LADDER.to_vec() } else { vec![64, 65, 256, 257, 513, 1025] };
+    for (j, &b) in ladder.iter().enumerate() {
+        let n = r.gen_range(6..=14usize);
+        let p = r.gen_range(1..=4usize);
+        let x: Vec<Vec<i64>> = (0..n).map(|_| rand_row(&mut r, p, 3)).collect();
+        let wv = rand_row(&mut r, p, 2);
+        let y16: Vec<i64> = x
+            .iter()
+            .map(|row| {
+                let lin: i64 = row.iter().zip(&wv).map(|(a, b)| a * b).sum();
+                (4 * lin + r.gen_range(-4..=4)) * 16384
+            })
+            .collect();
+        let k = rand_kernel(&mut r, true);
+        let c = *CS.choose(&mut r).unwrap();
+        let (batch, q) = make_batch(&mut r, b, p, false);
+        run += 1;
+        let inp = json!({"X": x, "y16": y16, "Q": q, "Cn": c.0, "Cd": c.1, "C16": c.0 * 65536 / c.1,
+                         "eps16": *[0i64, 8192, 16384].choose(&mut r).unwrap(), "tol16": 64, "kernel": k,
+                         "api": j % 3 == 2, "batch": batch});
         jobs.push(Job { run, src: "rand", svr: true, inp });
     }
     run_jobs(jobs, out);
@@ -890,8 +1132,8 @@ fn rerun(infile: &str, out: &mut Out) {
         let src = e["src"].as_str().unwrap_or("replay").to_string();
         let inp = e["in"].clone();
         let v = match e["ev"].as_str().unwrap_or("") {
-            "SvcFit" => svc_event(run, &src, inp),
-            "SvrFit" => svr_event(run, &src, inp),
+            "SvcFit" | "SvcBatch" => svc_event(run, &src, inp),
+            "SvrFit" | "SvrBatch" => svr_event(run, &src, inp),
             "K" => k_event(run, inp),
             "Gram" => gram_event(run, inp),
             _ => e.clone(),
